@@ -12,6 +12,10 @@
 //                                         m: iwjsreg_merge(reg, path, val)   r: iwjsreg_replace(reg, path, val)
 //                                         s: the typed entry point for a scalar val (iwjsreg_merge_str/_i64/_f64/_bool/_remove)
 //                                         -> rc=<enum> doc=<dump of the registry's root> links= dirty=<0|1> leak=<0|1>
+//   regs <doc> <steps>                    the same registry and SEVERAL calls: steps = JSON [["m"|"r", path, value?], ...]
+//                                         -> rcs=<rc,rc,...> doc= links= dirty= leak=
+// With H_JPATCH_PAR=1 in the environment a tree answer ends in " par=bad" when some child's `parent` pointer is not the node
+// that lists it.
 // Answer: rc=<enum> doc=<canonical dump> [kl=<cached indices of array items, dfs>] [links=ok|bad] [unchanged=0|1] [leak=0|1]
 // Includes iwjson.c itself so that the static functions are reachable.
 #include "json/iwjson.c"
@@ -61,6 +65,7 @@ static const char* rcname(iwrc rc) {
 
 static long budget;
 static int links_bad;
+static int par_bad;     // some child's `parent` pointer is not the node that lists it (reported only with H_JPATCH_PAR=1)
 
 static void dump(struct jbl_node *n, int lvl) {
   if (!n) { printf("?"); return; }
@@ -78,6 +83,7 @@ static void dump(struct jbl_node *n, int lvl) {
       for (struct jbl_node *c = n->child; c && budget >= 0; c = c->next) {
         if (c != n->child) printf(",");
         if (c != n->child && (!c->prev || c->prev->next != c)) links_bad = 1;
+        if (c->parent != n) par_bad = 1;
         dump(c, lvl + 1);
       }
       printf("]");
@@ -87,6 +93,7 @@ static void dump(struct jbl_node *n, int lvl) {
       for (struct jbl_node *c = n->child; c && budget >= 0; c = c->next) {
         if (c != n->child) printf(",");
         if (c != n->child && (!c->prev || c->prev->next != c)) links_bad = 1;
+        if (c->parent != n) par_bad = 1;
         if (c->key) puthex(c->key, c->klidx > 0 ? c->klidx : 0); else printf("?");
         printf(":");
         dump(c, lvl + 1);
@@ -110,7 +117,7 @@ static void dump_kl(struct jbl_node *n, int lvl, int *first) {
 
 static void out_tree(iwrc rc, struct jbl_node *root, int kl) {
   printf("rc=%s doc=", rcname(rc));
-  budget = 20000; links_bad = 0;
+  budget = 20000; links_bad = 0; par_bad = 0;
   dump(root, 0);
   if (kl) {
     int first = 1;
@@ -119,6 +126,7 @@ static void out_tree(iwrc rc, struct jbl_node *root, int kl) {
     dump_kl(root, 0, &first);
   }
   printf(" links=%s", links_bad ? "bad" : "ok");
+  if (par_bad && getenv("H_JPATCH_PAR")) printf(" par=bad");
 }
 
 static void out_jbl(iwrc rc, struct jbl *jbl) {
@@ -410,6 +418,46 @@ rdone:
       unlink(fn);
       iwpool_destroy(pool);
       free(doc); free(path); free(val);
+    } else if (!strcmp(tv[0], "regs") && n == 3) {
+      uint8_t *doc, *steps;
+      size_t dl = unhex0(tv[1], &doc); unhex0(tv[2], &steps);
+      char fn[64];
+      snprintf(fn, sizeof(fn), "/dev/shm/jpatch-reg-%d.json", (int) getpid());
+      struct iwpool *pool = iwpool_create(4096);
+      struct jbl_node *sn = 0;
+      struct iwjsreg *reg = 0;
+      iwrc rc = 0;
+      FILE *f = fopen(fn, "w");
+      if (!f || fwrite(doc, 1, dl, f) != dl) { printf("tmpfile=failed\n"); if (f) fclose(f); goto sdone; }
+      fclose(f);
+      rc = jbn_from_json((char*) steps, &sn, pool);
+      if (rc || sn->type != JBV_ARRAY) { printf("patchparse=%s\n", rcname(rc)); goto sdone; }
+      {
+        struct iwjsreg_spec spec = { .path = fn, .flags = IWJSREG_READONLY };
+        rc = iwjsreg_open(&spec, &reg);
+        if (rc) { printf("docparse=%s\n", rcname(rc)); reg = 0; goto sdone; }
+      }
+      printf("rcs=");
+      for (struct jbl_node *st = sn->child; st; st = st->next) {
+        struct jbl_node *k = st->type == JBV_ARRAY ? st->child : 0, *pth = k ? k->next : 0, *v = pth ? pth->next : 0;
+        if (!k || !pth || k->type != JBV_STR || pth->type != JBV_STR) { printf("?"); break; }
+        if (v) v->next = 0;     // the value is handed over as a document of its own
+        rc = k->vptr[0] == 'r' ? iwjsreg_replace(reg, pth->vptr, v) : iwjsreg_merge(reg, pth->vptr, v);
+        printf("%s%s", st == sn->child ? "" : ",", rcname(rc));
+        fflush(stdout);
+      }
+      printf(" ");
+      out_tree(0, reg->root, 0);
+      printf(" dirty=%d", reg->dirty ? 1 : 0);
+      fflush(stdout);
+      iwjsreg_close(&reg);
+      reg = 0;
+      printf(" leak=%d\n", leak_check());
+sdone:
+      if (reg) iwjsreg_close(&reg);
+      unlink(fn);
+      iwpool_destroy(pool);
+      free(doc); free(steps);
     } else if (!strcmp(tv[0], "cmp") && n == 3) {
       uint8_t *a, *b;
       unhex0(tv[1], &a); unhex0(tv[2], &b);
